@@ -1,5 +1,5 @@
 SPECIFICATION Spec
 CONSTANTS Prop = "C03"
           Thorough = FALSE
-INVARIANTS C03RoundTrip C03DecodedShape C03MachineRefines
+INVARIANTS C03RoundTrip C03DecodedShape C03MachineRefines C03SizeBoundary
 CHECK_DEADLOCK FALSE
